@@ -131,7 +131,10 @@ Inductive label :=
 | SelNone                              (* SelectAdapterProxy returned nil *)
 | Reinstate (ai : N)                   (* the goroutine started after an answered probe: reset + addAliveEp *)
 | Refresh (l inact : list N)           (* refreshEndpoints: the registry returns l as active (host order, no duplicates), inact as inactive *)
-| Late (ai : N).                       (* a reply on adapter ai arrives after its caller's deadline: AdapterProxy.Recv finds no waiter *)
+| Late (ai : N)                        (* a reply on adapter ai arrives after its caller's deadline: AdapterProxy.Recv finds no waiter *)
+| Sent (ai : N) (probe : bool).        (* a ONE-WAY call on adapter ai was handed to the transport (Send returned nil): counted as a
+                                          success, nothing is awaited, and - being no answer - it never reinstates; a one-way call
+                                          whose Send fails is Out ai false _ like any other failed call *)
 
 Definition w_pcalls v s := mkS (now s) (reg s) (objs s) (att s) (active s) (sel s) (probeq s) (pset s) v (reinst s) (reqlog s) (probelog s) (shrunk s).
 Definition w_reinst v s := mkS (now s) (reg s) (objs s) (att s) (active s) (sel s) (probeq s) (pset s) (pcalls s) v (reqlog s) (probelog s) (shrunk s).
@@ -202,6 +205,14 @@ Definition step (s : state) (l : label) : option state :=
                 (shrunk s || existsb (fun p => negb (memN (fst p) (l ++ inact))) (att s)))
     end
   | Late ai => match get ai s with Some _ => Some s | None => None end   (* no effect on the health record *)
+  | Sent ai probe =>
+    match get ai s with
+    | None => None
+    | Some a =>
+      if probe && negb (memN ai (pcalls s)) then None else
+      let s1 := put ai (succ_add (now s) a) s in
+      Some (if probe then w_pcalls (remove_first ai (pcalls s1)) s1 else s1)
+    end
   end.
 
 Fixpoint run (s : state) (ls : list label) : option state :=
@@ -225,6 +236,7 @@ Definition fails_since (ai : N) (ls : list label) : Z := fold_left (upd_fails ai
 Definition upd_streak (ai : N) (acc : Z) (l : label) : Z :=
   match l with
   | Out aj ok _ => if N.eqb aj ai then (if ok then 0 else acc + 1) else acc
+  | Sent aj _ => if N.eqb aj ai then 0 else acc
   | Reinstate aj => if N.eqb aj ai then 0 else acc
   | _ => acc
   end.
@@ -236,6 +248,7 @@ Definition upd_lastok (ai : N) (ct : Z * Z) (l : label) : Z * Z :=
   match l with
   | Advance d => (fst ct + Z.of_N d, snd ct)
   | Out aj true _ => if N.eqb aj ai then (fst ct, fst ct) else ct
+  | Sent aj _ => if N.eqb aj ai then (fst ct, fst ct) else ct
   | _ => ct
   end.
 Definition last_ok (ai : N) (ls : list label) : Z := snd (fold_left (upd_lastok ai) ls (T0, 0)).
